@@ -91,6 +91,11 @@ pub fn payloads() -> Vec<(String, Vec<u8>, bool)> {
     }
     v.push(("well-formed, empty route".into(), encode_request("", &[("id", "adv-p")], b""), true));
     v.push(("well-formed, route of 64 KiB".into(), encode_request(&"/r".repeat(32 * 1024), &[("id", "adv-p")], b""), true));
+    for pos in [63usize, 255] {
+        // a two-byte character straddling byte `pos + 1` of the route and of a header value
+        let text = format!("/{}é{}", "x".repeat(pos - 1), "y".repeat(40));
+        v.push((format!("well-formed, two-byte character straddling byte {} of route and header value", pos + 1), encode_request(&text, &[("id", "adv-p"), ("h-long", &text)], b"x"), true));
+    }
     let many: Vec<(String, String)> = (0..300).map(|i| (format!("k{i}"), "v".repeat(i % 7))).collect();
     let many_ref: Vec<(&str, &str)> = many.iter().map(|(k, v)| (k.as_str(), v.as_str())).chain([("id", "adv-p")]).collect();
     v.push(("well-formed, 300 headers".into(), encode_request("/echo", &many_ref, b"x"), true));
@@ -426,7 +431,7 @@ impl Check for C06 {
         CheckMeta {
             property: "C06",
             level: "fault_enumeration",
-            rule: "an admitted adversary (raw QUIC endpoint, valid identity) x byte string on a request stream (valid, cut at 15 offsets, garbage, wrong tag/version/reserved, 10 hostile length prefixes, bincode with absurd string/map sizes, invalid UTF-8, trailing bytes, response-shaped, 18 well-formed-but-unusual requests: timeout header values, empty/64 KiB route, 300 headers, duplicate keys, 1 MiB body) x ending {finish, reset, stop, abandon, connection close} x optional mid-frame split x placement {before, during, after} an honest peer's in-flight RPC; stream-level attacks (hold limit+3 streams, uni streams finished / reset / 150 at once / held open after 0, 1, 1024, 20000 bytes, datagrams 0/1/1200 B, abrupt closes, endpoint drop, stop+reset storms); each followed by a well-formed RPC on a sibling stream, honest RPCs, a new honest connection; plus the decoders on the same byte strings under an address-space cap; distinct = distinct (attack kind, connection state)".into(),
+            rule: "an admitted adversary (raw QUIC endpoint, valid identity) x byte string on a request stream (valid, cut at 15 offsets, garbage, wrong tag/version/reserved, 10 hostile length prefixes, bincode with absurd string/map sizes, invalid UTF-8, trailing bytes, response-shaped, 20 well-formed-but-unusual requests: timeout header values, empty/64 KiB route, multi-byte characters straddling bytes 64 / 256, 300 headers, duplicate keys, 1 MiB body) x ending {finish, reset, stop, abandon, connection close} x optional mid-frame split x placement {before, during, after} an honest peer's in-flight RPC; stream-level attacks (hold limit+3 streams, uni streams finished / reset / 150 at once / held open after 0, 1, 1024, 20000 bytes, datagrams 0/1/1200 B, abrupt closes, endpoint drop, stop+reset storms); each followed by a well-formed RPC on a sibling stream, honest RPCs, a new honest connection; plus the decoders on the same byte strings under an address-space cap; distinct = distinct (attack kind, connection state)".into(),
             assumptions: vec!["one adversary connection at a time; bidi stream limit 6".into()],
             exhaustive: true,
         }
